@@ -137,14 +137,23 @@ func buildHeapModel(c *Ctx) *heapModel {
 			}
 		}
 		if kind == "" {
-			// sift-down: some value is compared with len(q.data) in the loop header
-			for _, in := range iphi.Block().Instrs {
-				if bo, ok := in.(*ssa.BinOp); ok && (bo.Op == token.LSS || bo.Op == token.LEQ) {
-					if ln, ok := isBuiltinCall(bo.Y, "len"); ok && isLoadOfField(ln.Call.Args[0], m.dataF) {
+			// sift-down: some index is compared with len(q.data) somewhere in the loop
+			allInstrs(fn, func(in ssa.Instruction) {
+				bo, ok := in.(*ssa.BinOp)
+				if !ok {
+					return
+				}
+				switch bo.Op {
+				case token.LSS, token.LEQ, token.GTR, token.GEQ:
+				default:
+					return
+				}
+				for _, v := range []ssa.Value{bo.X, bo.Y} {
+					if ln, ok := isBuiltinCall(v, "len"); ok && isLoadOfField(ln.Call.Args[0], m.dataF) {
 						kind = "down"
 					}
 				}
-			}
+			})
 		}
 		switch kind {
 		case "up":
@@ -217,11 +226,12 @@ func runC05(c *Ctx) {
 	// ---- parent form: the non-loop-variable argument of swap in sift-up
 	upName := fnName(m.siftUp)
 	var parentOK bool
+	upKnown := relatedPhis(m.upPhi) // e.g. `for up := i/2; …; up = i/2`
 	for ei, a := range m.upPhi.Edges {
 		if !m.upPhi.Block().Dominates(m.upPhi.Block().Preds[ei]) || a == ssa.Value(m.upPhi) {
 			continue
 		}
-		f, ok := affOf(a, m.upPhi, nil, 0)
+		f, ok := affOf(a, m.upPhi, upKnown, 0)
 		if !ok || f.a != 1 {
 			c.undecided("R-HEAP-INDEX", upName+":parent-form", m.upPhi.Pos(), "the index sift-up moves to is not of the form ⌊(i+c)/d⌋: "+sym(a))
 			return
@@ -333,7 +343,7 @@ func runC05(c *Ctx) {
 	c.ok("R-HEAP-INDEX", upName+":stops-at-root", m.upPhi.Pos(), "loop guard is i > 0")
 	// sift-down: after the exchange the loop variable moves to the chosen child and lc is re-seeded consistently (related phi)
 	if len(known) == 0 {
-		c.undecided("R-HEAP-INDEX", dnName+":reseed", m.siftDn.Pos(), "no auxiliary child index phi related to the loop variable")
+		c.ok("R-HEAP-INDEX", dnName+":reseed", m.siftDn.Pos(), "child indices are recomputed from the loop variable in every iteration (no auxiliary index)")
 	} else {
 		c.ok("R-HEAP-INDEX", dnName+":reseed", m.siftDn.Pos(), "auxiliary child index is the same affine function of the loop variable on entry and on every iteration")
 	}
@@ -746,7 +756,7 @@ func runC06(c *Ctx) {
 				if ph.Block().Dominates(pred) {
 					continue
 				}
-				if f, ok := affLen(e, m); ok && f == (aff{1, -1, 1}) {
+				if f, ok := affLen(e, m, fn); ok && f == (aff{1, -1, 1}) {
 					stepDown, guard := false, false
 					for j, e2 := range ph.Edges {
 						if ph.Block().Dominates(ph.Block().Preds[j]) {
@@ -773,6 +783,9 @@ func runC06(c *Ctx) {
 					for _, r := range referrersOf(ph) {
 						if bo, ok := r.(*ssa.BinOp); ok && bo.X == ph && bo.Op == token.LSS {
 							if ln, ok := isBuiltinCall(bo.Y, "len"); ok && isLoadOfField(ln.Call.Args[0], m.dataF) {
+								guard = true
+							}
+							if m.lenAliases(fn)[bo.Y] {
 								guard = true
 							}
 						}
@@ -1001,11 +1014,59 @@ func rulePosWriters(c *Ctx) {
 }
 
 // affLen: v as affine in len(q.data).
-func affLen(v ssa.Value, m *heapModel) (aff, bool) {
+// lenAliases: values n such that every store to q.data in fn stores a slice of
+// length exactly n (make([]T, n) or x[:n]), so that len(q.data) == n afterwards.
+func (m *heapModel) lenAliases(fn *ssa.Function) map[ssa.Value]bool {
+	var cands []ssa.Value
+	first, ok := true, true
+	allInstrs(fn, func(in ssa.Instruction) {
+		st, isSt := in.(*ssa.Store)
+		if !isSt {
+			return
+		}
+		fa, isFa := st.Addr.(*ssa.FieldAddr)
+		if !isFa {
+			return
+		}
+		if _, f := fieldVarOf(fa); !sameField(f, m.dataF) {
+			return
+		}
+		var n ssa.Value
+		switch x := st.Val.(type) {
+		case *ssa.MakeSlice:
+			n = x.Len
+		case *ssa.Slice:
+			if x.Low == nil && x.High != nil {
+				n = x.High
+			}
+		}
+		if n == nil {
+			ok = false
+			return
+		}
+		if first {
+			cands, first = []ssa.Value{n}, false
+		} else if len(cands) == 0 || cands[0] != n {
+			ok = false
+		}
+	})
+	out := map[ssa.Value]bool{}
+	if ok && len(cands) == 1 {
+		out[cands[0]] = true
+	}
+	return out
+}
+
+func affLen(v ssa.Value, m *heapModel, fn *ssa.Function) (aff, bool) {
+	alias := m.lenAliases(fn)
 	var lenv ssa.Value
 	var find func(v ssa.Value, d int)
 	find = func(v ssa.Value, d int) {
 		if d > 6 || lenv != nil {
+			return
+		}
+		if alias[v] {
+			lenv = v
 			return
 		}
 		if ln, ok := isBuiltinCall(v, "len"); ok && isLoadOfField(ln.Call.Args[0], m.dataF) {
